@@ -235,7 +235,12 @@ def cls_name(atom):
     return "Hs%d" % atom["n"]
 
 
+OPER_PY = {"+": "add", "[]": "getitem", "()": "call"}
+
+
 def fn_name(atom):
+    if atom["kind"] == "oper":
+        return "operator " + atom["op"]
     return {"free": "gf_x%d", "coerce": "cf_x%d"}.get(atom["kind"], "fn_x%d") % atom["n"]
 
 
@@ -367,7 +372,7 @@ def render_header(atoms, guard):
         else:
             o.append("  %s();\n" % c)
         o.append("  %s(const %s &copy);\n  ~%s();\n" % (c, c, c))
-        if k in ("meth", "static"):
+        if k in ("meth", "static", "oper"):
             for ov in a["ovs"]:
                 o.append("  %s%s %s(%s)%s;\n" % ("static " if k == "static" else "", rt, fn_name(a),
                                                  param_decl(ov, True),
@@ -423,12 +428,12 @@ def render_twin(atoms, header):
         o.append("const %s *%s::vt_cself() const { return this; }\n" % (c, c))
         o.append("int %s::vt_id() const { return _tag.use(); }\n" % c)
         o.append("void %s::vt_touch() { _tag.use(); }\n" % c)
-        if k in ("meth", "static"):
+        if k in ("meth", "static", "oper"):
             for j, ov in enumerate(a["ovs"]):
                 o.append("%s %s::%s(%s)%s { %s return t.%s(); }\n"
                          % (rt, c, fn_name(a), param_decl(ov, False),
                             " const" if ov.get("const") else "",
-                            body_trace(a, j, ov, k == "meth"), rm))
+                            body_trace(a, j, ov, k in ("meth", "oper")), rm))
     return "".join(o)
 
 
@@ -525,7 +530,7 @@ def render_can(a):
     c = cls_name(a)
     fn = fn_name(a)
     k = a["kind"]
-    if k == "meth":
+    if k in ("meth", "oper"):
         return ("template<class S, class... T> constexpr bool vt_can_%d = "
                 "requires(S s, T... t) { s.%s(static_cast<T &&>(t)...); };\n" % (n, fn))
     if k == "static":
@@ -539,7 +544,7 @@ def render_can(a):
 
 
 def modes_of(a):
-    return {"meth": ("m", "c"), "static": ("s",), "free": ("f",), "ctor": ("k",),
+    return {"meth": ("m", "c"), "oper": ("m", "c"), "static": ("s",), "free": ("f",), "ctor": ("k",),
             "coerce": ("q",)}[a["kind"]]
 
 
@@ -603,7 +608,8 @@ def sig_str(ov):
 
 
 def atom_key(a):
-    return "%s:%s:%s" % (a["kind"], a["ret"], "+".join(sig_str(ov) for ov in a["ovs"]))
+    kind = a["kind"] + (a["op"] if a["kind"] == "oper" else "")
+    return "%s:%s:%s" % (kind, a["ret"], "+".join(sig_str(ov) for ov in a["ovs"]))
 
 
 PY_GROUP = {"i": "I", "c": "I", "l": "I", "e": "I", "d": "F", "b": "B", "s": "S", "S": "S",
@@ -669,6 +675,32 @@ def coerce_sets(add):
         add("ctor", ovs, "ctor-explicit" if any(o.get("explicit") for o in ovs) else "ctor-sets")
 
 
+def oper_sets(add_oper, thorough):
+    """Overloaded member operators: dispatch inside the slot wrappers (binary operator,
+    sequence/mapping subscript, call)."""
+    C = dict(const=True)
+    one = [["i"], ["d"], ["s"], ["pa"], ["ra"], ["c"]]
+    pairs = [(["i"], ["d"]), (["i"], ["s"]), (["d"], ["pa"]), (["s"], ["ra"]), (["pa"], ["pb"]),
+             (["i"], ["ra"]), (["c"], ["s"]), (["rk"], ["s"])]
+    for op in ("+", "[]", "()"):
+        for ps in one:
+            add_oper(op, [make_ov(ps, **C)])
+        for p1, p2 in pairs:
+            add_oper(op, [make_ov(p1, **C), make_ov(p2, **C)])
+        add_oper(op, [make_ov(["i"]), make_ov(["i"], **C)])        # const / non-const pair
+        add_oper(op, [make_ov(["i"])])                            # non-const only
+        if thorough:
+            add_oper(op, [make_ov(["i"], **C), make_ov(["d"], **C), make_ov(["s"], **C)])
+            add_oper(op, [make_ov(["pa"], **C), make_ov(["pb"], **C), make_ov(["pc"], **C)])
+            add_oper(op, [make_ov(["l"], **C)])
+            add_oper(op, [make_ov(["e"], **C)])
+            add_oper(op, [make_ov(["S"], **C)])
+    # the call operator alone takes several arguments, defaults and keywords
+    for ovs in ([make_ov(["i", "d"], **C)], [make_ov(["i", "s"], nd=1, **C)],
+                [make_ov([], **C), make_ov(["i"], **C)], [make_ov(["pa", "i"], nd=2, **C)]):
+        add_oper("()", ovs)
+
+
 def enumerate_atoms(tier):
     """Canonical, deterministic list of overload sets for the tier (simplest first)."""
     atoms = []
@@ -679,6 +711,13 @@ def enumerate_atoms(tier):
         ret = rets[len(atoms) % len(rets)]
         atoms.append({"n": len(atoms), "kind": kind, "ret": ret if kind != "ctor" else "v",
                       "ovs": [dict(o) for o in ovs], "fam": fam})
+
+    def add_oper(op, ovs):
+        ret = rets[len(atoms) % len(rets)]
+        if ret == "v":
+            ret = "i"
+        atoms.append({"n": len(atoms), "kind": "oper", "op": op, "ret": ret,
+                      "ovs": [dict(o) for o in ovs], "fam": "oper" + op})
 
     if tier == "quick":
         cats = ["i", "c", "d", "s", "pa", "pb"]
@@ -713,6 +752,14 @@ def enumerate_atoms(tier):
             add("meth", [make_ov(["rk"]), make_ov([other])], "coerce")
             add("free", [make_ov(["rx"]), make_ov([other])], "coerce")
         coerce_sets(add)
+        oper_sets(add_oper, False)
+        # arity 1 vs arity 2 with default (count overlap resolved by category / derivation)
+        j = 0
+        for c1, c2 in itertools.permutations(["i", "d", "s", "pa", "pb"], 2):
+            o1, o2 = make_ov([c1]), make_ov([c2, "i"], nd=1)
+            if distinguishable(o1, o2):
+                add(kinds[j % 4], [o1, o2], "arity-mix")
+                j += 1
         # size 2 again with the next kind, so that every pair meets two call conventions
         j = 1
         for s1, s2 in itertools.combinations(sigs, 2):
@@ -736,6 +783,7 @@ def enumerate_atoms(tier):
             for k in kinds:
                 add(k, [s1, s2], "size2")
     coerce_sets(add)
+    oper_sets(add_oper, True)
     # size 3 over arity <= 1 without defaults, every call convention
     plain = [s for s in sigs1 if not s["nd"] and s["ps"]]
     for trio in itertools.combinations(plain, 3):
@@ -829,9 +877,29 @@ __published:
   const OP &get_part() const;
   void set_part(const OP &p);
   __make_property(part, get_part, set_part);
+  int take_w(OW *w);
+  int take_wcref(const OW &w) const;
+  int take_wval(OW w) const;
 public:
   VtTag _tag;
   OP _part;
+};
+class OX {
+__published:
+  OX();
+  ~OX();
+  int vt_xid() const;
+public:
+  VtTag _xtag;
+  int _pad[5];
+};
+class OD : public OX, public OW {
+__published:
+  OD();
+  OD(const OD &copy);
+  ~OD();
+  OW *as_w();
+  int vt_did() const;
 };
 #endif
 '''
@@ -862,6 +930,17 @@ int OW::take_val(OP p) const { _tag.use(); return p._tag.use(); }
 void OW::touch() { _tag.use(); }
 const OP &OW::get_part() const { _tag.use(); return _part; }
 void OW::set_part(const OP &p) { _tag.use(); p._tag.use(); _part._n = p._n; }
+int OW::take_w(OW *w) { _tag.use(); return w ? w->_tag.use() : -1; }
+int OW::take_wcref(const OW &w) const { _tag.use(); return w._tag.use(); }
+int OW::take_wval(OW w) const { _tag.use(); return w._tag.use(); }
+OX::OX() : _xtag("OX") {}
+OX::~OX() {}
+int OX::vt_xid() const { return _xtag.use(); }
+OD::OD() {}
+OD::OD(const OD &copy) : OX(), OW(copy) {}
+OD::~OD() {}
+OW *OD::as_w() { return this; }
+int OD::vt_did() const { return _tag.use(); }
 '''
 
 H_MAXV = 3
@@ -896,7 +975,7 @@ def h_enabled(st):
     ops = []
     room = len(vs) < H_MAXV
     if room:
-        ops += [("newW",), ("newP",), ("makenew",)]
+        ops += [("newW",), ("newP",), ("makenew",), ("newD",)]
     for i, v in enumerate(vs):
         ops.append(("del", i))
         if not h_usable(st, i):
@@ -906,9 +985,15 @@ def h_enabled(st):
             if room:
                 ops += [("copy", i), ("byval", i), ("selfptr", i), ("selfcptr", i), ("selfref", i),
                         ("partptr", i), ("partcref", i), ("partval", i), ("getprop", i)]
+            if room and v.get("derived"):
+                ops.append(("asw", i))
             for j, p in enumerate(vs):
                 if p["kind"] == "P" and h_usable(st, j):
                     ops += [("takeptr", i, j), ("takecref", i, j), ("takeval", i, j), ("setprop", i, j)]
+                if p["kind"] == "W" and h_usable(st, j) and (v.get("derived") or p.get("derived")):
+                    # object-typed arguments; kept to pairs involving the derived class, where the
+                    # this-pointer has to be adjusted
+                    ops += [("takew", i, j), ("takewcref", i, j), ("takewval", i, j)]
         else:
             ops.append(("setn", i))
             if room:
@@ -939,13 +1024,27 @@ def h_apply(st, op):
     exp = {"raises": None, "var": None}
     k = op[0]
 
-    def push(kind, obj, owned, const, **kw):
-        vs.append({"kind": kind, "obj": obj, "owned": owned, "const": const})
+    def push(kind, obj, owned, const, derived=False, **kw):
+        vs.append({"kind": kind, "obj": obj, "owned": owned, "const": const, "derived": derived})
+        kw["derived"] = derived
         exp["var"] = dict({"kind": kind, "owned": owned, "const": const, "same_as": None,
                            "member_of": None, "fresh": False}, **kw)
 
     if k == "newW":
         push("W", _h_newW(st), True, False, fresh=True)
+    elif k == "newD":
+        push("W", _h_newW(st), True, False, derived=True, fresh=True)
+    elif k == "asw":
+        v = vs[op[1]]
+        if v["const"]:
+            exp["raises"] = "TypeError"
+        else:
+            push("W", v["obj"], False, False, same_as=op[1])
+    elif k == "takew":
+        if vs[op[1]]["const"] or vs[op[2]]["const"]:
+            exp["raises"] = "TypeError"
+    elif k in ("takewcref", "takewval"):
+        pass
     elif k == "newP":
         push("P", _h_newobj(st, "P"), True, False, fresh=True)
     elif k == "makenew":
@@ -960,7 +1059,7 @@ def h_apply(st, op):
     elif k == "copy":
         v = vs[op[1]]
         if v["kind"] == "W":
-            push("W", _h_newW(st), True, False, fresh=True)
+            push("W", _h_newW(st), True, False, derived=bool(v.get("derived")), fresh=True)
         else:
             push("P", _h_newobj(st, "P"), True, False, fresh=True)
     elif k == "byval":
@@ -1028,7 +1127,8 @@ def h_key(st):
     for v in st["vars"]:
         o = st["objs"][v["obj"]]
         par = o["parent"]
-        parts.append("%s%d%s%s%s%s" % (v["kind"], r(v["obj"]), "o" if v["owned"] else "b",
+        parts.append("%s%d%s%s%s%s" % ("D" if v.get("derived") else v["kind"], r(v["obj"]),
+                                       "o" if v["owned"] else "b",
                                        "c" if v["const"] else "m",
                                        "A" if h_alive(st, v["obj"]) else "D",
                                        ("<%d" % r(par)) if par is not None else ""))
